@@ -48,6 +48,12 @@
 // realm's Authorizer until the harness is about to invoke Close/RemoveRealm.
 // Both have a 1 h virtual fallback.
 //
+// "hold_until":"closed" on a join parks the attach goroutine inside the
+// peer's IsLocal() (called by realm.authClient) until the history's Close /
+// RemoveRealm has returned, or 1 s of virtual time passed; IsLocal() then
+// returns false.  Top level "template":true gives the router a RealmTemplate
+// (anonymous auth), "local_auth":true sets RequireLocalAuth on every realm.
+//
 // close (C06 only): perform Close / RemoveRealm(realm) before ops[pos]
 // (pos==len(ops): at the end).  in_burst: release it together with ops[pos]
 // (all its ops if that is a burst).  After Router.Close the remaining ops are
@@ -106,6 +112,8 @@ type History struct {
 	Prop            string        `json:"prop"`
 	Seed            uint64        `json:"seed"`
 	Shape           string        `json:"shape,omitempty"`
+	Template        bool          `json:"template,omitempty"`   // router has a RealmTemplate (realms are created on demand)
+	LocalAuth       bool          `json:"local_auth,omitempty"` // realms require authentication of local clients
 	Realms          []string      `json:"realms"`
 	Sessions        []SessionSpec `json:"sessions"`
 	Ops             []Op          `json:"ops"`
